@@ -172,7 +172,7 @@ def run_shard(ctx):
         if ctx.out_of_time():
             break
         text_ok = rng.random() < 0.2
-        u = GT.gen_universe(rng, small=True, text_ok=text_ok, max_fields=5)
+        u = GT.gen_universe(rng, small=True, text_ok=text_ok, max_fields=5, consts=True)
         seed = rng.randrange(1 << 30)
         try:
             with ctx.watchdog(120):
